@@ -182,7 +182,7 @@ def run(tier, replay=None):
         total_runs += summ["runs"]
         total_lines += summ["lines"]
         rep.cov["evaluations"] += summ["responses"] + summ["probes"] + summ["hook_events"]
-        rep.add_samples(["[%s] %s" % (name, s) for s in summ["samples"][-1:]], 1)
+        rep.add_samples(["[%s] %s" % (name, s) for s in summ["samples"][-2:]], 2)
         seen_classes = set()
         for v in out:
             if v.get("kind") == "violation" and v["class"] not in seen_classes:
@@ -194,7 +194,7 @@ def run(tier, replay=None):
                               name="violation_%s_%s.ndjson" % (name, v["class"].replace(":", "_").replace("/", "_")))
 
     # ---- 4. I->S
-    n_runs = 1500 if thorough else 500
+    n_runs = 4000 if thorough else 500
     chunk = 250
     accepted_runs = 0
     trace_events = 0
